@@ -713,7 +713,7 @@ type c19EndingInput struct {
 func c19Ending(in c19EndingInput) *fw.Violation {
 	want, class, errText := runSVG(in.Prefix)
 	if class != "ok" {
-		panic("C19: drawing prefix fails: " + errText)
+		return &fw.Violation{Sub: "svg-endings", Signature: "drawing-fails:" + class, What: "a plain sequence of drawing commands does not run", Input: in, Expected: "ok", Observed: class + " " + errText}
 	}
 	dir, err := os.MkdirTemp(os.Getenv("VERIF_BUILD_DIR"), "svge-")
 	if err != nil {
